@@ -52,6 +52,9 @@ structure Abs where
   slowOk : Bool      -- the normal queue holds nothing but JOINs
   evOk : Bool        -- the event list holds nothing but driver events
   wantedOk : Bool    -- REQUEST_CAPABILITIES ⊆ the extracted set + `sasl`
+  policies : List (Str × Str)   -- the stored STS policies (ircdb.networks)
+  forced : Bool      -- driver.currentServer.force_tls_verification
+  sock : Nat         -- sockets opened so far
 deriving DecidableEq, Repr
 
 def isReconnect : Out → Bool
@@ -72,7 +75,11 @@ def α (s : St) : Abs :=
   { fsm := s.fsm, saslAuth := s.saslAuth, afterConnect := s.afterConnect, endCount := s.endCount,
     epoch := s.epoch, ackSasl := s.ack.contains sSasl, kinds := s.fastq.map Out.kind,
     aborts := (s.ev.filter isReconnect).length, acked := s.saslAcked,
-    slowOk := s.slowq.all isSide, evOk := s.ev.all isSide, wantedOk := s.wanted.all isWanted }
+    slowOk := s.slowq.all isSide, evOk := s.ev.all isSide, wantedOk := s.wanted.all isWanted,
+    policies := s.db.policies, forced := s.drv.current.forced, sock := s.drv.sock }
+
+/-- `secure_connection` of Irc._onCapSts, on the abstraction -/
+def aSecure (cfg : Cfg) (a : Abs) : Bool := a.forced || (cfg.ssl && cfg.certValidation)
 
 /-- `Irc._abortIfSaslRequired` would abort -/
 def missing (cfg : Cfg) (a : Abs) : Bool := cfg.required && !a.saslAuth
@@ -111,7 +118,14 @@ inductive Move (cfg : Cfg) (K : Kind → Bool) : Abs → Abs → Prop
   | reset (a : Abs) (h : cfg.realDriver = true) :
       Move cfg K a { fsm := .INIT_CAP_NEGOTIATION, saslAuth := false, afterConnect := false, endCount := 0,
                      epoch := a.epoch + 1, ackSasl := false, kinds := connectKinds cfg, aborts := a.aborts,
-                     acked := false, slowOk := true, evOk := a.evOk, wantedOk := a.wantedOk }
+                     acked := false, slowOk := true, evOk := a.evOk, wantedOk := a.wantedOk,
+                     policies := a.policies, forced := a.forced, sock := a.sock }
+  /-- Irc._onCapSts stores the policy: only on a connection it considers secure -/
+  | store (a : Abs) (h : aSecure cfg a = true) (ps : List (Str × Str)) : Move cfg K a { a with policies := ps }
+  /-- ServersMixin._applyStsPolicy drops an expired policy -/
+  | expire (a : Abs) (host : Str) : Move cfg K a { a with policies := dictDel a.policies host }
+  /-- SocketDriver.reconnect opens a socket to the next server -/
+  | conn (a : Abs) (f : Bool) (h : cfg.realDriver = true) : Move cfg K a { a with forced := f, sock := a.sock + 1 }
 
 inductive Moves (cfg : Cfg) (K : Kind → Bool) : Abs → Abs → Prop
   | refl (a : Abs) : Moves cfg K a a
@@ -147,6 +161,9 @@ theorem Move.mono {cfg : Cfg} {K K' : Kind → Bool} (hK : ∀ k, K k = true →
   case ackLose => exact .ackLose _
   case abort => exact .abort _
   case reset h => exact .reset _ h
+  case store h ps => exact .store _ h ps
+  case expire host => exact .expire _ host
+  case conn f h => exact .conn _ f h
 
 theorem Moves.mono {cfg : Cfg} {K K' : Kind → Bool} (hK : ∀ k, K k = true → K' k = true) {a b : Abs}
     (h : Moves cfg K a b) : Moves cfg K' a b := by
